@@ -393,3 +393,59 @@ package store
 //@   ensures [swap-failure-not-a-change] (swapped && swapErr != nil) ==> !result1
 //@   ensures [query-noop-never-a-change] (result0 != nil && (result0.Type == proto.Command_COMMAND_TYPE_QUERY || result0.Type == proto.Command_COMMAND_TYPE_NOOP)) ==> !result1
 //@   ensures [command-returned] result0 != nil
+//
+// ---- C33 / C01: manual recovery rebuilds the database from the newest snapshot plus every log entry ----
+// RecoverNode: the configuration is validated before anything else; the newest snapshot (first of
+// the store's listing) is restored into the temporary database before it is opened; every index
+// after the snapshot up to the last log index is read, in order, none skipped, and every command
+// entry (and only those) goes through the one apply function with that entry's data; the new
+// snapshot carries the configuration given and the index/term reached by the replay and is taken
+// from the temporary database after its checkpoint; the log is compacted only after that snapshot
+// was closed successfully.
+//@ func RecoverNode
+//@   requires [args] logger != nil && logs != nil && snaps != nil
+//@   assigns **
+//@   ghost var cfgOK bool = false
+//@   ghost var restored bool = false
+//@   ghost var opened bool = false
+//@   ghost var nGet int = 0
+//@   ghost var pending bool = false
+//@   ghost var ckptOK bool = false
+//@   ghost var created bool = false
+//@   ghost var persisted bool = false
+//@   ghost var closedOK bool = false
+//@   ghost var deleted bool = false
+//@   ghost var sinkV int = 0
+//@   ghost update @checkRaftConfiguration: cfgOK = (result == nil)
+//@   assert @checkRaftConfiguration: [validates-given-config] arg0.Servers == conf.Servers
+//@   assert @snaps.List: [config-first] cfgOK
+//@   assert @snaps.Open: [newest-snapshot] arg0 == snapshots[0].ID && !opened
+//@   assert @snapshot.Restore: [restore-into-temp-db] arg1 == tmpDBPath && !opened
+//@   ghost update @snapshot.Restore: restored = (result1 == nil)
+//@   assert @set:snapshotIndex: [index-of-restored-snapshot] restored
+//@   assert @set:snapshotTerm: [term-of-restored-snapshot] restored
+//@   assert @sql.OpenSwappable: [open-after-restore] arg0 == tmpDBPath && (len(snapshots) > 0 ==> restored)
+//@   ghost update @sql.OpenSwappable: opened = (result1 == nil)
+//@   assert @logs.GetLog: [every-index-in-order] arg0 == index && index == snapshotIndex + 1 + nGet && !pending
+//@   ghost update @logs.GetLog: nGet = nGet + 1
+//@   ghost update @logs.GetLog: pending = (result == nil && entry.Type == raft.LogCommand)
+//@   assert @cmdProc.Process: [replay-command-entries] pending && arg0 == entry.Data && arg1 == db
+//@   ghost update @cmdProc.Process: pending = false
+//@   assert @set:lastIndex: [command-entry-not-skipped] !pending
+//@   loop 1 invariant [replay-trace] index == snapshotIndex + 1 + nGet && nGet >= 0 && !pending && opened && cfgOK && !ckptOK && !created
+//@   assert @db.Checkpoint: [checkpoint-after-replay] !pending && (nGet == 0 || index > lastLogIndex)
+//@   ghost update @db.Checkpoint: ckptOK = (result2 == nil)
+//@   assert @snapshot.NewSnapshotStreamer: [snapshot-from-temp-db-after-checkpoint] ckptOK && arg0 == tmpDBPath
+//@   assert @snaps.Create: [snapshot-meta] ckptOK && arg1 == lastIndex && arg2 == lastTerm && arg3.Servers == conf.Servers
+//@   ghost update @snaps.Create: created = (result1 == nil)
+//@   ghost update @snaps.Create: sinkV = result0
+//@   assert @fsmSnapshot.Persist: [persist-into-new-snapshot] created && arg0 == sinkV
+//@   ghost update @fsmSnapshot.Persist: persisted = (result == nil)
+//@   assert @sink.Close: [close-after-persist] persisted
+//@   ghost update @sink.Close: closedOK = (result == nil)
+//@   assert @logs.DeleteRange: [snapshot-closed-before-compaction] closedOK && arg0 == firstLogIndex && arg1 == lastLogIndex
+//@   ghost update @logs.DeleteRange: deleted = (result == nil)
+//@   ensures [nil-means-complete] result == nil ==> (cfgOK && opened && ckptOK && persisted && closedOK && deleted)
+//
+//@ func NewCommandProcessor
+//@   ensures [non-nil] result != nil
